@@ -457,7 +457,7 @@ func genCase(layer string) func(t *rapid.T) routeCase {
 			}
 			seen[s] = true
 			serials = append(serials, s)
-			d := hook.DeviceCfg{Name: fmt.Sprintf("c%d", i), Serial: s, ViaNew: rapid.Bool().Draw(t, "via.new"), TZ: gen.DeviceTZ(t, "tz"),
+			d := hook.DeviceCfg{Name: fmt.Sprintf("c%d", i), Serial: s, ViaNew: rapid.Bool().Draw(t, "via.new"), TZ: gen.DeviceTZ(t, "tz"), Doors: gen.Doors(t, "doors"),
 				Protocol: rapid.SampledFrom([]string{"udp", "tcp", "tcp", "", "any", "TCP", "Tcp", "tcp ", "udp4", "xyz"}).Draw(t, "protocol")}
 			switch rapid.IntRange(0, 5).Draw(t, "address.kind") {
 			case 0: // zero-value address
